@@ -301,7 +301,9 @@ def crafted_triples(r, n, gennb):
             # both sides insert runs at the same position: dissimilar blocks of unequal length, then a similar pair, then maybe more
             pos = r.randint(0, len(b['cells'])); used = gennb.used_ids(b); minor = b['nbformat_minor']
             def fresh(k=None): return gennb.gen_cell(r, minor, used, kind=k)
-            la = [fresh() for _ in range(r.choice([0, 1, 2, 3]))]; ra = [fresh() for _ in range(r.choice([0, 1, 2]))]
+            # (the first instances have non-empty blocks of unequal length: the local/remote offset then matters)
+            nl, nr = [(2, 1), (1, 2), (3, 1), (1, 3), (0, 1), (2, 2), (1, 0), (3, 2)][(i // 9) % 8] if i < 72 else (r.choice([0, 1, 2, 3]), r.choice([0, 1, 2]))
+            la = [fresh() for _ in range(nl)]; ra = [fresh() for _ in range(nr)]
             s1 = fresh(r.choice(['code', 'markdown'])); s2 = copy.deepcopy(s1)
             if 'id' in s2: s2['id'] = gennb.gen_id(r, used)
             s2['source'] = gennb.edit_source_text(r, s2['source'], s2['cell_type'], 'tiny')
